@@ -303,6 +303,26 @@ var edits = []edit{
 	{"rewrite.inlineSelf", func(s string) string {
 		return mustReplace(s, "              field: class\n", "              field: log\n")
 	}},
+	// rewriters of a field that is masked (hidden or an environment field): whatever the loader decides about the step list,
+	// the serializer of the first pipeline must be constructible
+	{"rewrite.hidden.inlineLast", func(s string) string {
+		return mustReplace(s, "        rewriteFields:\n", "        rewriteFields:\n          task:\n            - type: unescape\n            - type: inline\n              field: class\n")
+	}},
+	{"rewrite.hidden.unknownInline", func(s string) string {
+		return mustReplace(s, "        rewriteFields:\n", "        rewriteFields:\n          task:\n            - type: inline\n              field: nosuchfield\n            - type: unescape\n")
+	}},
+	{"rewrite.hidden.valid", func(s string) string {
+		return mustReplace(s, "        rewriteFields:\n", "        rewriteFields:\n          task:\n            - type: unescape\n")
+	}},
+	{"rewrite.env.copyFirst", func(s string) string {
+		return mustReplace(s, "        rewriteFields:\n", "        rewriteFields:\n          host:\n            - type: copy\n            - type: unescape\n")
+	}},
+	{"rewrite.env.unescapeFirst", func(s string) string {
+		return mustReplace(s, "        rewriteFields:\n", "        rewriteFields:\n          vhost:\n            - type: unescape\n            - type: copy\n")
+	}},
+	{"rewrite.env.unknownType", func(s string) string {
+		return mustReplace(s, "        rewriteFields:\n", "        rewriteFields:\n          host:\n            - type: noSuchType\n")
+	}},
 	{"env.alsoHidden", func(s string) string {
 		return mustReplace(s, "environmentFields: [host, vhost]", "environmentFields: [host, task]")
 	}},
